@@ -124,7 +124,8 @@ def walkStepC (ty kind : Nat) (data rest : Bytes) (st : WalkSt) : M WalkSt :=
         let v ← be32Of s
         pure [v]
       else pure [])
-    pure { st with olayout := st.olayout ++ [.ts], quirks := st.quirks ++ q1 ++ q2,
+    -- each push guarded by `!quirks.contains(..)` (no index)
+    pure { st with olayout := st.olayout ++ [.ts], quirks := addNew st.quirks (q1 ++ q2),
                    tsCalls := st.tsCalls ++ calls }
   | k => pure (walkStep ty k data rest st)
 
